@@ -1255,6 +1255,27 @@ def check_c07(res, ctx):
         if not h.endswith("live=0"):
             return "leak: " + h[-30:]
         return None
+    al = []
+    for _ in range(800 if ctx.tier == "quick" else 10000):
+        o = gen.robj(r, n=r.choice([0, 1, 1, 2, 3, 9, 40]), big=r.random() < 0.03)
+        al.append("oarr " + o.script())
+
+    def oracle_oarr(l, h):
+        for tag in ("a", "u"):
+            m = re.search(r" r%s=0@(\d+):\S*?:eq=(-?\d+) s%s=(-?\d+)(?:@(\d+))?" % (tag, tag), " " + h)
+            if m:
+                if m.group(3) != "0" or m.group(4) != m.group(1):
+                    return "sbdf_obj_skip%s does not end where sbdf_obj_read%s ends: %s" % ("_arr" if tag == "a" else "", "_arr" if tag == "a" else "", h[:200])
+                if tag == "a" and m.group(2) != "1":
+                    return "sbdf_obj_read_arr of what sbdf_obj_write_arr wrote is not equal to the object written: " + h[:200]
+        if " one=0:" in h and not re.search(r" one=0:\S*:eq=1", h):
+            return "sbdf_obj_create on the same data gives a different object: " + h[:200]
+        if not h.endswith("live=0"):
+            return "leak: " + h[-30:]
+        return None
+    compare(res, ctx, al, "c07 object entry points", oracle=oracle_oarr,
+            rule="objects of every type and count 0..40 through sbdf_obj_write_arr/_read_arr/_skip_arr and sbdf_obj_write/_read/_skip with trailing bytes; single values also through sbdf_obj_create",
+            nontrivial=lambda l: int(l.split()[2]) > 0)
     compare(res, ctx, ol, "c07 sbdf_obj_skip", oracle=oracle_oskip,
             rule="single unpacked objects of every type id (known, unknown), strings/binaries with int32 lengths incl. negative/huge, truncated bodies, trailing bytes: read vs skip",
             nontrivial=lambda l: len(l) > 12)
@@ -1684,7 +1705,7 @@ def check_c14(res, ctx):
                     why = "after a failed and repeated sbdf_ts_add the slice serialises differently from the fault-free run"
                 elif body == b:
                     why = "an allocation failed but every call reported the same results as without the failure"
-                elif not re.search(r"(?:^|[=~:,; a])(-\d+)", body):
+                elif not re.search(r"(?:^|[=~:,; ant])(-\d+)", body):
                     why = "an allocation failed but no call returned a non-OK status"
                 elif l in mdops:
                     frame.append((fl, l, body))
